@@ -7,3 +7,9 @@ import FuraxProofs.Props.C01
 #print axioms Furax.C01.homothetyRule_sound
 #print axioms Furax.C01.identityRule_sound
 #print axioms Furax.C01.framework_inhabited
+#print axioms Furax.C01.reduce_sound
+#print axioms Furax.C01.reduceTop_sound
+#print axioms Furax.C01.every_rule_sound
+#print axioms Furax.C01.unrelativised_rule_soundness_is_false
+#print axioms Furax.C01.reduce_sound_hypotheses_consistent
+#print axioms Furax.C01.scan_sound_on_every_chain
